@@ -22,6 +22,9 @@ type Viol struct {
 	Sig    string // signature: clause + the structural facts that make it fail (see DESIGN.md §2.5)
 	Detail string // observed vs expected, human readable
 	Sub    string // enumerations: the inner evaluation of a grouped case that produced it
+	// ExtraPath: events to append to the history for replay (used when the oracle looked ahead on a fork: the
+	// replayed history then contains the look-ahead steps as explicit events, the last of which shows the violation)
+	ExtraPath []string
 }
 
 // Step is the outcome of applying one event.
@@ -319,7 +322,7 @@ func expandNode(sc Scenario, ws *wstate, n *node, idx int32, out *workerOut) {
 		for _, v := range st.Viols {
 			f, ok := out.found[v.Sig]
 			if !ok {
-				out.found[v.Sig] = &Found{Viol: v, Path: append(append([]string{}, path...), ev), Count: 1}
+				out.found[v.Sig] = &Found{Viol: v, Path: append(append(append([]string{}, path...), ev), v.ExtraPath...), Count: 1}
 			} else {
 				f.Count++
 			}
